@@ -240,6 +240,16 @@ def gen_block_history(r, nops, profile):
             return r.randrange(400, 6000)
         return r.choice([16200, 16383, 16384, 20000])
 
+    if profile == "sweep":
+        # shrink rule at its boundary: A and B fill a block that grew to 2^10 / 2^11; A is deleted; B is sized so that the compacted
+        # size `dsz` sweeps over 2^9 +-3 (`nlen >= 2 * dsz`, `(1 << (npow - 1)) >= dsz`)
+        ka, kb = keys[0], keys[1]
+        for na in (100, 1300):
+            for dv in range(-3, 4):
+                put(ka, na)
+                put(kb, max(0, 512 - 69 - (1 if len(kb) < 128 else 2) - len(kb) + dv))
+                dele(ka)
+                dele(kb)
     while nimg[0] < nops:
         x = r.random()
         k = r.choice(keys)
@@ -277,8 +287,21 @@ def gen_block_history(r, nops, profile):
         else:
             for kk in r.sample(sorted(live), len(live) // r.choice([1, 2, 3])) if live else []:
                 dele(kk)
-    ops += ["close", "image @IMGclosed"]
+    ops += ["dump 1", "close", "image @IMGclosed"]
     return ops
+
+
+def block_oracle(ops):
+    """API-level oracle of the block stream: every answer and the final dump equal the python reference map"""
+    ref = G.Ref()
+    want = [ref.apply(l) for l in ops]
+
+    def oracle(lines):
+        for i, (w, g) in enumerate(zip(want, lines)):
+            if w is not None and w != g:
+                return "op %d `%s`: implementation `%s`, reference `%s`" % (i, ops[i][:60], g[:120], w[:120])
+        return None
+    return oracle
 
 
 BLK_STEP = re.compile(r"^(put|del|cur \d+ set) ")
@@ -290,17 +313,27 @@ def explore_block(ctx, h, drv, n, nops, label):
     os.makedirs(d, exist_ok=True)
     cases = []
     for i in range(n):
-        prof = ["mixed", "small", "compact", "updates"][i % 4]
+        prof = ["mixed", "small", "compact", "updates", "mixed", "small", "compact", "updates", "sweep"][i % 9]
         ops = [l.replace("@IMG", os.path.join(d, "%s-%d-" % (label, i))) for l in gen_block_history(r, nops, prof)]
-        cases.append(Case("block-" + prof, ops, None, key=hash(tuple(ops))))
+        cases.append(Case("block-" + prof, ops, block_oracle(ops), key=hash(tuple(ops))))
     ctx.sample(dict(kind="block-history", n_ops=len(cases[0].ops), first_ops=[l[:80] for l in cases[0].ops[:6]]))
-    canon = lambda l: "image" if l.startswith("image ") and not l.startswith("image 0") and not l.startswith("image -1") else l
+    canon = lambda l: "image" if l.startswith("image ") and not l.startswith("image 0") and not l.startswith("image -1") else ("dump" if l.startswith("dump ") else l)
     # in chunks: the images of a chunk are removed before the next one is produced
+    crashed = False
     for a in range(0, len(cases), 8):
+        if crashed:          # the implementation crashes or hangs on these histories: reported with a replay, do not burn the budget
+            break
         chunk = cases[a:a + 8]
-        probs = differential(ctx, [h, C.scratch() + "/kv6b-%s.db" % label], [drv, "kvblk"], chunk, timeout=600, canon=canon)
+        probs = differential(ctx, [h, C.scratch() + "/kv6b-%s.db" % label], [drv, "kvblk"], chunk, timeout=60, canon=canon)
+        crashed = crashed or any(p[0] == "crash" for _, p in probs)
         for c, p in probs:
-            if p[0] == "diverge":
+            if p[0] == "diverge" and (p[3].startswith("image BAD") or p[3].startswith("image UNREADABLE")):
+                # the independent Lean reader / audit rejects the file: the property itself fails on this history
+                ctx.hist("block:audit-bad")
+                cls = re.sub(r"\d+", "N", p[3])[:70]
+                ctx.fail(dict(kind="audit", cls=cls), dict(ops=[l for l in c.ops[:p[1]] if not l.startswith("image ")] + [c.ops[p[1]]], audit=p[3][:300]),
+                         "file image not well-formed after op %d: %s" % (p[1], p[3][:300]))
+            elif p[0] == "diverge":
                 ctx.hist("block:diverge")
                 ctx.corr_broken.append("data-block writer model / implementation diverge at op %d `%s`: impl `%s` model `%s` (history prefix: %s)" % (
                     p[1], c.ops[p[1]][:80], p[2][:100], p[3][:300], [l[:60] for l in c.ops[max(0, p[1] - 4):p[1]]]))
